@@ -161,6 +161,10 @@ def build_conv_gfa1(r):
             tags.append(["LN", "i", str(n)])
         lines.append(["S", [s, seq], tags])
     other = ["e1", "e2", "e3", "e4", "e5", "p1", "p2", "c1", "c2"]
+    if gen.chance(r, 0.4):
+        # identifiers that look like the numbers a conversion hands out to unnamed links
+        other += [x for x in ["1", "2", "3", "4"] if x not in segs]
+        r.shuffle(other)
     links = {}
     link_recs = []
 
